@@ -197,8 +197,8 @@ Definition inherit_one (allS : N) (lower : tags_t) (t : tag) : tag :=
   | [], [] => t
   | _, _ =>
     if existsb (fun r => negb (is0 (tu r lower))) (d_subt d)
-    then mkTag d (t_m t) allS (t_conv t)
-    else mkTag d (t_m t) (fold_left (fun u r => union u (tu r lower)) (d_main d) (t_u t)) (t_conv t)
+    then mkTag0 d (t_m t) allS (t_conv t) (t_live t)
+    else mkTag0 d (t_m t) (fold_left (fun u r => union u (tu r lower)) (d_main d) (t_u t)) (t_conv t) (t_live t)
   end.
 
 Fixpoint inherit (allS : N) (ts : tags_t) : tags_t :=
@@ -211,12 +211,12 @@ Fixpoint inherit (allS : N) (ts : tags_t) : tags_t :=
 Definition invalidate_one (k : kf) (allS upd rst add : N) (t : tag) : tag :=
   let d := t_def t in
   if negb (t_live t) then t else
-  if d_sub d then mkTag d (t_m t) allS (t_conv t)
+  if d_sub d then mkTag0 d (t_m t) allS (t_conv t) (t_live t)
   else if d_idonly d then
-    (if kf_idonly k then t else mkTag d (t_m t) (union (t_u t) add) (t_conv t))
+    (if kf_idonly k then t else mkTag0 d (t_m t) (union (t_u t) add) (t_conv t) (t_live t))
   else
     let u := union (union (t_u t) add) rst in
-    mkTag d (t_m t) (if d_datatime d then union u upd else u) (t_conv t).
+    mkTag0 d (t_m t) (if d_datatime d then union u upd else u) (t_conv t) (t_live t).
 
 Definition invalidate_tags (k : kf) (allS upd rst add : N) (ts : tags_t) : tags_t :=
   inherit allS (map (fun nt => (fst nt, invalidate_one k allS upd rst add (snd nt))) ts).
@@ -381,7 +381,7 @@ Definition bump (v : N -> N) (s : N) : N -> N := fun i => if mem i s then v i + 
 
 Definition data_tags_uncertain (s : N) (ts : tags_t) : tags_t :=
   map (fun nt => let t := snd nt in
-                 (fst nt, if d_data (t_def t) then mkTag (t_def t) (t_m t) (union (t_u t) s) (t_conv t) else t)) ts.
+                 (fst nt, if d_data (t_def t) then mkTag0 (t_def t) (t_m t) (union (t_u t) s) (t_conv t) (t_live t) else t)) ts.
 
 Definition queue_matches (st : state) (cs : list N) (m : N) : state :=
   set_toconv st (fun c => if memN c cs then union (toconv st c) m else toconv st c).
